@@ -26,6 +26,32 @@ impl<T, F: RealNumber, D: Distance<T, F>> LinearKNNSearch<T, F, D> {
         &&& forall|i: int| 0 <= i < n && #[trigger] self.within(from, radius, i) ==> exists|a: int| 0 <= a < v.len() && (#[trigger] v[a]).0 == i   // complete
     }
 
+    // step lemma: appending point i (within the radius, with its true distance) to an exact answer for the first i points
+    // gives an exact answer for the first i + 1 points
+    proof fn lemma_radius_push(&self, from: &T, radius: F, v0: Seq<(usize, F, &T)>, i: usize, d: F, p: &T)
+        requires
+            self.radius_answer(from, radius, v0, i as int),
+            i < self.data@.len(),
+            self.within(from, radius, i as int),
+            d == self.dist_to(from, i as int),
+            *p == self.data@[i as int],
+        ensures
+            self.radius_answer(from, radius, v0.push((i, d, p)), i + 1),
+    {
+        let v1 = v0.push((i, d, p));
+        assert forall|j: int| 0 <= j < i + 1 && #[trigger] self.within(from, radius, j) implies exists|a: int| 0 <= a < v1.len() && (#[trigger] v1[a]).0 == j by {
+            if j < i {
+                let a = choose|a: int| 0 <= a < v0.len() && (#[trigger] v0[a]).0 == j;
+                assert(v1[a].0 == j);
+            } else {
+                assert(v1[v0.len() as int].0 == i);
+            }
+        }
+        assert forall|a: int, b: int| 0 <= a < b < v1.len() implies (#[trigger] v1[a]).0 < (#[trigger] v1[b]).0 by {
+            if b < v0.len() { assert(v0[a].0 < v0[b].0); } else { assert(v0[a].0 < i); }
+        }
+    }
+
 //@extract src/algorithm/neighbour/linear_search.rs :: impl<T, F: RealNumber, D: Distance<T, F>> LinearKNNSearch<T, F, D> :: new :: ret=r
 //@spec
         ensures
@@ -47,25 +73,14 @@ impl<T, F: RealNumber, D: Distance<T, F>> LinearKNNSearch<T, F, D> {
                 F::obeys_partial_cmp_spec(),
                 forall|i: int| 0 <= i < self.data@.len() ==> #[trigger] self.distance.dist_req(from, &self.data@[i]),
                 self.radius_answer(from, radius, neighbors@, i as int),
-//@before let d = self.distance.distance(
+//@loopbody 1
             let ghost v0 = neighbors@;
-//@after neighbors.push(
-                proof {
-                    let v1 = neighbors@;
-                    assert(v1 == v0.push((i, d, &self.data[i as int])));
-                    assert forall|j: int| 0 <= j < i + 1 && #[trigger] self.within(from, radius, j) implies exists|a: int| 0 <= a < v1.len() && (#[trigger] v1[a]).0 == j by {
-                        if j < i {
-                            let a = choose|a: int| 0 <= a < v0.len() && (#[trigger] v0[a]).0 == j;
-                            assert(v1[a].0 == j);
-                        } else {
-                            assert(v1[v0.len() as int].0 == i);
-                        }
-                    }
-                    assert forall|a: int, b: int| 0 <= a < b < v1.len() implies (#[trigger] v1[a]).0 < (#[trigger] v1[b]).0 by {
-                        if b < v0.len() { assert(v0[a].0 < v0[b].0); } else { assert(v0[a].0 < i); }
-                    }
-                    assert(self.radius_answer(from, radius, v1, i + 1));
+//@loopend 1
+            proof {
+                if neighbors@ != v0 && self.within(from, radius, i as int) {
+                    self.lemma_radius_push(from, radius, v0, i, d, &self.data[i as int]);
                 }
+            }
 //@end
 }
 } // verus!
